@@ -514,7 +514,7 @@ func vHandSplit(fs vfs.IFS, m pb.Message, first, rest int) []pb.Chunk {
 // is still delivered (a sender that keeps going, or resumes, after a refused
 // chunk).  Whichever chunk the incremental validator refuses, the stream must
 // never finalize, never notify, and what is left of it is collected.
-//vcheck: reach=intact,refused-mid-stream,refused-at-the-end,done workers=16 forbid=.
+//vcheck: props=C14 reach=intact,refused-mid-stream,refused-at-the-end,done workers=16 forbid=.
 func VHarness_C15_CorruptMidStream() {
 	snapshotChunkSize = 1040
 	fs := vfs.NewMemFS()
